@@ -169,6 +169,9 @@ class Evaluator:
         except Returned as r:
             ys = self._yields.pop()
             return tuple(ys) if func.is_generator else r.value
+        finally:
+            # state of the receiver object written by the callee is visible to the caller (and to the driver)
+            selfenv.update({k: v for k, v in env.items() if k.startswith("self.")})
         ys = self._yields.pop()
         return tuple(ys) if func.is_generator else None
 
@@ -239,6 +242,13 @@ class Evaluator:
                 env[t.value.id][t.attr] = v       # abstract object: the caller inspects it afterwards
             else:
                 env[ast.unparse(t)] = v
+        elif isinstance(t, ast.Subscript):
+            base = self.expr(t.value, env, f, 0)
+            idx = self.expr(t.slice, env, f, 0)
+            if isinstance(base, (dict, list)) and not isinstance(idx, (Opaque, Sym)):
+                base[idx] = v
+            else:
+                raise AnalysisError("subscript store on an abstract container (%s)" % f.loc(t))
         elif isinstance(t, ast.Tuple) and isinstance(v, (tuple, list)) and len(v) == len(t.elts):
             for a, b in zip(t.elts, v):
                 self.assign(a, b, env, f)
@@ -483,6 +493,16 @@ class Evaluator:
             if fn.attr in self.watch:
                 self.effects.append((fn.attr,) + tuple(freeze(a) for a in args))
                 return None
+            if recv_name not in env and isinstance(fn.value, ast.Subscript):
+                try:
+                    rv = self.expr(fn.value, env, f, depth)
+                except (AnalysisError, Raised):
+                    rv = None
+                if isinstance(rv, dict) and (fn.attr + "()") in rv:
+                    if fn.attr in self.watch:
+                        self.effects.append((fn.attr,) + tuple(freeze(a) for a in args))
+                    v = rv[fn.attr + "()"]
+                    return v(rv) if callable(v) else v
             if recv_name in env and type(env[recv_name]) is list and fn.attr in ("append", "insert", "extend"):
                 if fn.attr == "append":
                     env[recv_name].append(args[0])
